@@ -26,6 +26,31 @@ type IsoCase struct {
 	NObs     int    `json:"n_obs"`    // observation loads per B runtime (1..3)
 }
 
+// isoDerive: builtins applied to the literals of the SHARED definitions
+// Program.  B observes their results; A mutates their results in place.  Both
+// runtimes reach the same parsed nodes, so anything a builtin keeps per node
+// outside the runtime (a cache, a lazily built view) would carry A's
+// mutation into B's observation.
+var isoDerive = []string{
+	"(reverse 'list shared-list)", "(reverse 'vector shared-list)", "(concat 'list shared-list)", "(concat 'vector shared-list)",
+	"(append 'list shared-list)", "(append 'vector shared-list)", "(append 'vector shared-list 4)",
+	"(slice 'vector shared-list 0 3)", "(slice 'list shared-list 0 3)", "(cdr shared-list)", "(rest shared-list)",
+	"(map 'list identity shared-list)", "(map 'vector identity shared-list)", "(select 'list (lambda (e) true) shared-list)",
+	"(cons 0 shared-list)", "(elpspath:? shared-list '(range 0 2))", "(elpspath:?set shared-list 0 5)", "(elpspath:?del shared-list 0)",
+	"(insert-index 'list shared-list 0 5)", "(insert-sorted 'list shared-list < 5)", "(zip 'list shared-list shared-list)",
+	"(apply list shared-list)", "(apply vector shared-list)", "(stable-sort < shared-list)", "(stable-sort < (shared-lit))",
+	"(get shared-map \"k\")", "(shared-lit)", "(macroexpand '(shared-mac 3 1 2))", "(shared-mac 3 1 2)",
+	"(json:load-string (json:dump-string shared-list))", "(string:split \"c,a,b\" \",\")", "(keys shared-map)",
+	"(slice 'bytes shared-list 0 2)", "(to-bytes \"cab\")", "(make-sequence 0 3)", "(list shared-list (shared-lit))",
+	"(quasiquote (3 (unquote-splicing shared-list) 1))", "(car (list shared-list))",
+}
+
+var isoMutate = []string{
+	"(stable-sort > %s)", "(stable-sort < %s)", "(append! %s 9 8)", "(elpspath:?set! %s 0 99)", "(elpspath:?del! %s 0)",
+	"(elpspath:?nil! %s 0)", "(append-bytes! %s \"zz\")", "(assoc! %s \"k\" 9)", "(stable-sort > (car %s))",
+	"(stable-sort > (slice 'vector %s 0 2))",
+}
+
 var isoNames = []string{"gx", "gy", "helper", "ff", "mm", "ty", "counter"}
 
 func guardObs(tag, expr string) string {
@@ -54,7 +79,10 @@ func genIso() *rapid.Generator[IsoCase] {
 		var act []string
 		na := n(2, 10, "nact")
 		for i := 0; i < na; i++ {
-			switch n(0, 19, "act") {
+			switch n(0, 27, "act") {
+			case 20, 21, 22, 23, 24, 25, 26, 27:
+				d := isoDerive[n(0, len(isoDerive)-1, "derive")]
+				act = append(act, fmt.Sprintf(isoMutate[n(0, len(isoMutate)-1, "mutate")], d))
 			case 0:
 				act = append(act, fmt.Sprintf("(set '%s %d)", pick("an", "gx", "gy", "counter"), n(0, 99, "av")))
 			case 1:
@@ -122,6 +150,9 @@ func genIso() *rapid.Generator[IsoCase] {
 			"(defun ds () (debug-stack))", "(ds)",
 			guardObs("sort-literal", "(stable-sort < '(3 1 2))"),
 			guardObs("own-mutation", "(progn (append! shared-vec 7) (assoc! shared-map \"b\" 1) (length shared-vec))"),
+		}
+		for i, d := range isoDerive {
+			obs = append(obs, guardObs(fmt.Sprintf("derive%d", i), d))
 		}
 		// a generated subset in generated order (always at least 6)
 		perm := rapid.Permutation(obs).Draw(t, "obsorder")
